@@ -414,6 +414,82 @@ def _itemlabpunct(ctx, kids):
     ctx.close()
 
 
+@reg('itemlabverb', slots=2, cls='gen')
+def _itemlabverb(ctx, kids):
+    # the token in front of \item[label] is a multi-character token ending with a punctuation mark
+    ctx.open('verb', ())
+    ctx.w('\\verb|')
+    ctx.word()
+    ctx.copy(';')
+    ctx.w('|')
+    ctx.close()
+    ctx.gap()
+    ctx.open('itemlab-frame', WS)
+    ctx.w('\\begin{itemize}')
+    ctx.gap()
+    n = ctx.open('itemlab-item', WS)
+    ctx.w('\\item[')
+    slot(ctx, kids[0], optslot=True)
+    ctx.w(']')
+    ctx.gen(';', n)
+    ctx.w(' ')
+    ctx.close()
+    slot(ctx, kids[1])
+    ctx.gap()
+    ctx.w('\\end{itemize}')
+    ctx.close()
+
+
+@reg('enumnested', slots=2, cls='gen')
+def _enumnested(ctx, kids):
+    # an empty enumerate item that opens a list with an explicit label: the label follows the generated '1.'
+    ctx.open('enumerate-frame', WS)
+    ctx.w('\\begin{enumerate}')
+    ctx.gap()
+    n = ctx.open('enumerate-item', WS)
+    ctx.w('\\item ')
+    ctx.gen('1.' if not ctx.enum else 'a.', n)
+    ctx.close()
+    ctx.enum.append(0)
+    ctx.open('itemlab-frame', WS)
+    ctx.w('\\begin{itemize}')
+    ctx.gap()
+    m = ctx.open('itemlab-item', WS)
+    ctx.w('\\item[')
+    slot(ctx, kids[0], optslot=True)
+    ctx.w(']')
+    ctx.gen('.', m)
+    ctx.w(' ')
+    ctx.close()
+    slot(ctx, kids[1])
+    ctx.gap()
+    ctx.w('\\end{itemize}')
+    ctx.close()
+    ctx.enum.pop()
+    ctx.gap()
+    ctx.w('\\end{enumerate}')
+    ctx.close()
+
+
+@reg('ltinput', cls='hidden')
+def _ltinput(ctx, kids):
+    # a readable file of definitions: its text is dropped, everything seen before stays
+    ctx.open('ltinput', ())
+    ctx.w('\\LTinput{ymcinput.tex}')
+    ctx.close()
+    if 'Hzzq' not in ctx.hidden:
+        ctx.hidden.append('Hzzq')
+
+
+@reg('verbatimspace', cls='verbatim', par=True)
+def _verbatimspace(ctx, kids):
+    ctx.open('verbatim', WS)
+    ctx.w('\\begin  {verbatim}\n')
+    ctx.word()
+    ctx.w('\n\\end{verbatim}')
+    ctx.close()
+
+
 @reg('proof', slots=1, cls='gen', par=True)
 def _proof(ctx, kids):
     ctx.open('proof-frame', WS)
@@ -612,7 +688,7 @@ def _verbatimglued(ctx, kids):
     ctx.close()
 
 
-def user_macro(name, nargs, definer, body, default=None):
+def user_macro(name, nargs, definer, body, default=None, give_option=False):
     """body: list of ('g', i) i-th generated word | ('a', k) argument | ('t', text) literal generated text.
     The macro is defined where it is first used in the document and re-used afterwards
     (repeated calls of the same macro).  default: text of the default of an optional first
@@ -620,7 +696,7 @@ def user_macro(name, nargs, definer, body, default=None):
     ng = 1 + max([p[1] for p in body if p[0] == 'g'], default=-1)
     mac = '\\m' + name.replace('_', '').replace('um', 'U')
 
-    @reg(name, slots=nargs - (1 if default is not None else 0), cls='user')
+    @reg(name, slots=nargs - (1 if default is not None and not give_option else 0), cls='user')
     def f(ctx, kids):
         if not hasattr(ctx, 'umacs'):
             ctx.umacs = {}
@@ -643,10 +719,23 @@ def user_macro(name, nargs, definer, body, default=None):
         # arguments are rendered once into private flows, then placed as the body says
         argflows = []
         argdet = []
-        if default is not None:
+        if default is not None and not give_option:
             argflows.append([['G', dflt, n]])
             argdet.append([])
         for k in range(len(kids)):
+            if give_option and k == 0:
+                # the optional argument is given: document text with its own positions
+                ctx.w('[')
+                fl = []
+                d0 = len(ctx.detached)
+                ctx.stack.append(fl)
+                slot(ctx, kids[k], optslot=True)
+                ctx.stack.pop()
+                ctx.w(']')
+                argflows.append(fl)
+                argdet.append(ctx.detached[d0:])
+                del ctx.detached[d0:]
+                continue
             ctx.w('{')
             fl = []
             d0 = len(ctx.detached)
@@ -681,6 +770,7 @@ user_macro('um_def', 2, 'def', [('t', '<'), ('a', 0), ('t', '>'), ('a', 1)])
 user_macro('um_drop', 2, 'renewcommand', [('a', 0)])
 user_macro('um_opt', 2, 'newcommand', [('a', 0), ('t', ':'), ('a', 1), ('g', 0)], default=True)
 user_macro('um_optonly', 1, 'newcommand', [('t', '('), ('a', 0), ('t', ')')], default=True)
+user_macro('um_optgiven', 2, 'newcommand', [('a', 0), ('t', '+'), ('a', 1)], default=True, give_option=True)
 
 
 def preamble_text(features, sedname='ymc.sed'):
@@ -879,3 +969,5 @@ def write_aux_files(directory):
     import os
     with open(os.path.join(directory, 'ymc.sed'), 'w') as f:
         f.write(SED_TEXT)
+    with open(os.path.join(directory, 'ymcinput.tex'), 'w') as f:
+        f.write('Hzzq text of the file \\newcommand{\\unusedq}{Hzzq}\\footnote{Hzzq}\n')
